@@ -34,6 +34,11 @@ theorem getElem?_set_cases {α : Type} (l : List α) (i j : Nat) (a b : α) (h :
       rw [List.getElem?_eq_none (by omega)] at h; simp at h
   · rw [List.getElem?_set_ne hij] at h; exact Or.inr ⟨hij, h⟩
 
+/-- the stopper of the code as it is: a nil stop channel is left alone -/
+theorem stopChan_fixed (s : St) (k : Nat) (st : Stream) :
+    stopChan .fixed s k st = { s with streams := s.streams.set k { st with stopClosed := true } } := by
+  simp [stopChan, Variant.fixed]
+
 /-! ### the server never crashes (code as it is, every schedule) -/
 
 /-- invariant behind "no send on, no close of a closed channel" -/
@@ -164,8 +169,9 @@ theorem inv_step (caps : Caps) (s s' : St) (a : Act) (hI : Inv s) (h : step .fix
             rcases hc with hc | hc
             · exact hI.closedZero hc
             · exact hc
-          have hnew : ∀ c, Inv (newStream .fixed { s with inq := rest, calls := c }) := by
-            intro c
+          have hnew : ∀ c (t : Stream), t.extra = [] → t.fwd = .recv →
+              Inv (newStream .fixed { s with inq := rest, calls := c } t) := by
+            intro c t htx htf
             simp only [newStream, Variant.fixed, if_true]
             split
             · refine ⟨hI.1, ?_, ?_, hI.4, hI.5⟩
@@ -173,7 +179,7 @@ theorem inv_step (caps : Caps) (s s' : St) (a : Act) (hI : Inv s) (h : step .fix
                 simp only [List.mem_append, List.mem_singleton] at hu
                 rcases hu with hu | rfl
                 · exact hI.noextra u hu
-                · rfl
+                · exact htx
               · simp [List.countP_append, live, hI.count]
             · rename_i hoc
               refine ⟨hI.1, ?_, ?_, ?_, hI.5⟩
@@ -181,17 +187,34 @@ theorem inv_step (caps : Caps) (s s' : St) (a : Act) (hI : Inv s) (h : step .fix
                 simp only [List.mem_append, List.mem_singleton] at hu
                 rcases hu with hu | rfl
                 · exact hI.noextra u hu
-                · rfl
-              · simp [List.countP_append, live, hI.count]
+                · exact htx
+              · simp [List.countP_append, live, hI.count, htf]
               · intro hc; simp [hoc] at hc
+          have hnil : ∀ c, Inv (nilOut .fixed { s with inq := rest, calls := c }) := by
+            intro c
+            simp only [nilOut, adapterFail, Variant.fixed, if_true]
+            refine ⟨hI.1, ?_, ?_, ?_, hI.5⟩
+            · intro u hu
+              simp only [List.mem_append, List.mem_singleton] at hu
+              rcases hu with hu | rfl
+              · exact hI.noextra u hu
+              · rfl
+            · simp [List.countP_append, live, hI.count]
+            · intro hc
+              simp only [Bool.or_eq_true, beq_iff_eq] at hc
+              rcases hc with hc | hc
+              · exact hI.closedZero hc
+              · exact hc
           cases m with
           | garbage => simp only [Option.some.injEq] at h; subst h; exact hfail s.calls
           | failing => simp only [Option.some.injEq] at h; subst h; exact hfail (s.calls + 1)
-          | fresh => simp only [Option.some.injEq] at h; subst h; exact hnew (s.calls + 1)
+          | fresh => simp only [Option.some.injEq] at h; subst h; exact hnew (s.calls + 1) {} rfl rfl
+          | nostop => simp only [Option.some.injEq] at h; subst h; exact hnew (s.calls + 1) _ rfl rfl
+          | noout => simp only [Option.some.injEq] at h; subst h; exact hnil (s.calls + 1)
           | reuse j =>
             simp only at h
             split at h
-            · simp only [Option.some.injEq] at h; subst h; exact hnew (s.calls + 1)
+            · simp only [Option.some.injEq] at h; subst h; exact hnew (s.calls + 1) {} rfl rfl
             · simp only [Variant.fixed, if_true, Option.some.injEq] at h; subst h
               exact ⟨hI.1, hI.2, hI.3, hI.4, hI.5⟩
   | emit k f x =>
@@ -288,7 +311,7 @@ theorem inv_step (caps : Caps) (s s' : St) (a : Act) (hI : Inv s) (h : step .fix
     · simp at h
     · rename_i st hk
       split at h
-      · simp only [Option.some.injEq] at h; subst h
+      · simp only [stopChan_fixed, Option.some.injEq] at h; subst h
         have hx := hI.noextra st (List.mem_of_getElem? hk)
         have h2 := count_move hI hk { st with stopClosed := true } _ _ rfl rfl
         exact ⟨hI.1, extra_set hI _ (by simp [hx]), by simp only at h2 ⊢; omega, hI.4, hI.5⟩
@@ -424,18 +447,24 @@ theorem inv2_step (caps : Caps) (s s' : St) (a : Act) (hI : Inv s) (hJ : Inv2 s)
             intro c
             simp only [adapterFail, Variant.fixed, if_true]
             exact ⟨fun ha => by simp [hnd'] at ha, hJ.2, hJ.3⟩
-          have hnew : ∀ c, Inv2 (newStream .fixed { s with inq := rest, calls := c }) := by
-            intro c
+          have hnew : ∀ c (t : Stream), Inv2 (newStream .fixed { s with inq := rest, calls := c } t) := by
+            intro c t
             simp only [newStream, Variant.fixed, if_true]
             split <;> exact ⟨fun ha => by simp [hnd'] at ha, hJ.2, hJ.3⟩
+          have hnil : ∀ c, Inv2 (nilOut .fixed { s with inq := rest, calls := c }) := by
+            intro c
+            simp only [nilOut, adapterFail, Variant.fixed, if_true]
+            exact ⟨fun ha => by simp [hnd'] at ha, hJ.2, hJ.3⟩
           cases m with
           | garbage => simp only [Option.some.injEq] at h; subst h; exact hfail s.calls
           | failing => simp only [Option.some.injEq] at h; subst h; exact hfail (s.calls + 1)
-          | fresh => simp only [Option.some.injEq] at h; subst h; exact hnew (s.calls + 1)
+          | fresh => simp only [Option.some.injEq] at h; subst h; exact hnew (s.calls + 1) {}
+          | nostop => simp only [Option.some.injEq] at h; subst h; exact hnew (s.calls + 1) _
+          | noout => simp only [Option.some.injEq] at h; subst h; exact hnil (s.calls + 1)
           | reuse j =>
             simp only at h
             split at h
-            · simp only [Option.some.injEq] at h; subst h; exact hnew (s.calls + 1)
+            · simp only [Option.some.injEq] at h; subst h; exact hnew (s.calls + 1) {}
             · simp only [Variant.fixed, if_true, Option.some.injEq] at h; subst h
               exact ⟨fun ha => by simp [hnd'] at ha, hJ.2, hJ.3⟩
   | emit k f x =>
@@ -484,7 +513,7 @@ theorem inv2_step (caps : Caps) (s s' : St) (a : Act) (hI : Inv s) (hJ : Inv2 s)
     split at h
     · simp at h
     · split at h
-      · simp only [Option.some.injEq] at h; subst h; exact ⟨hJ.1, hJ.2, hJ.3⟩
+      · simp only [stopChan_fixed, Option.some.injEq] at h; subst h; exact ⟨hJ.1, hJ.2, hJ.3⟩
       · simp at h
   | wOut =>
     simp only at h
@@ -560,6 +589,8 @@ theorem quiet_teardown (caps : Caps) (hcap : 0 < caps.inCap) (s : St) (hI : Inv 
           | garbage => rfl
           | failing => rfl
           | fresh => rfl
+          | nostop => rfl
+          | noout => rfl
           | reuse j => simp only []; split <;> simp [Variant.fixed]
       rw [qa] at this; simp at this
   -- the reader has ended
@@ -946,7 +977,7 @@ theorem hinv_step (caps : Caps) (s s' : St) (a : Act) (hI : Inv s) (hH : HInv s)
     · rename_i st0 hk
       obtain ⟨hs1, rfl⟩ := hstream k st0 hk
       split at h
-      · simp only [Option.some.injEq] at h; subst h
+      · simp only [stopChan_fixed, Option.some.injEq] at h; subst h
         have hset : s.streams.set 0 { st0 with stopClosed := true } = [{ st0 with stopClosed := true }] := by
           rw [hs1]; rfl
         refine ⟨hH.c2s, hH.here, hH.nohold, hH.notended, ?_, ?_, hH.closingW, hH.stopW, hH.inclosedW, hH.wsW,
@@ -1161,11 +1192,11 @@ theorem c15_old_shared_channel_reorders :
 
 /-- each repair is needed on its own (the other two in place) -/
 theorem c15_each_repair_needed :
-    (run ⟨false, true, true⟩ caps10 (init .fresh)
+    (run ⟨false, true, true, true⟩ caps10 (init .fresh)
       [.aStep, .cSend .garbage, .rStep, .rStep, .aStep, .emit 0 0 7, .fStep 0 0]).panic = some .sendOnClosedOut ∧
-    (run ⟨true, false, true⟩ caps10 (init .fresh)
+    (run ⟨true, false, true, true⟩ caps10 (init .fresh)
       [.aStep, .cSend .fresh, .rStep, .svcClose 0, .fStep 0 0, .wOut, .rStep]).panic = some .sendOnClosedInputs ∧
-    (run ⟨true, true, false⟩ caps10 (init .fresh)
+    (run ⟨true, true, false, true⟩ caps10 (init .fresh)
       [.aStep, .cSend (.reuse 0), .rStep, .rStep, .aStep, .emit 0 0 1, .emit 0 1 2, .fStep 0 1, .fStep 0 0,
        .wOut, .wOut]).s2c = [.data 0 2, .data 0 1] := by decide
 
@@ -1175,7 +1206,7 @@ channel 0, channel 1, then channel 0 again.  If that third request starts a forw
 two values of channel 0 overtake each other; with the code as it is the second forwarder does not
 exist, the same schedule delivers in order. -/
 theorem c15_revisited_channel_needs_one_forwarder :
-    (run ⟨true, true, false⟩ caps10 (init .fresh)
+    (run ⟨true, true, false, true⟩ caps10 (init .fresh)
       [.aStep, .cSend .fresh, .rStep, .rStep, .aStep, .cSend (.reuse 0), .rStep, .rStep, .aStep,
        .emit 0 0 1, .emit 0 1 2, .fStep 0 1, .fStep 0 0, .wOut, .wOut]).s2c = [.data 0 2, .data 0 1] ∧
     (run .fixed caps10 (init .fresh)
@@ -1482,20 +1513,31 @@ theorem ginv_step (caps : Caps) (s s' : St) (a : Act) (hI : Inv s) (hJ : Inv2 s)
               rcases hnew k' u hu with hu | ⟨rfl, rfl⟩
               · exact hG.exact hc hen k' u hu
               · simp only [ExactK]; rw [hD, hQ, hne, hnh]; rfl
-          have hnewS : ∀ c, GInv (newStream .fixed { s with inq := rest, calls := c }) := by
-            intro c
+          have hnewS : ∀ c (t : Stream), t.emitted = [] → heldOf t.fwd = [] →
+              GInv (newStream .fixed { s with inq := rest, calls := c } t) := by
+            intro c t ht1 ht2
             simp only [newStream, Variant.fixed, if_true]
             split
-            · exact happ _ { refused := true, fwd := .done } rfl rfl rfl rfl rfl rfl rfl rfl rfl rfl rfl rfl rfl
-            · exact happ _ {} rfl rfl rfl rfl rfl rfl rfl rfl rfl rfl rfl rfl rfl
+            · exact happ _ { t with refused := true, fwd := .done } rfl rfl rfl rfl rfl rfl rfl rfl rfl rfl rfl ht1 rfl
+            · exact happ _ t rfl rfl rfl rfl rfl rfl rfl rfl rfl rfl rfl ht1 ht2
+          have hnil : ∀ c, GInv (nilOut .fixed { s with inq := rest, calls := c }) := by
+            intro c
+            let n : Stream := { refused := true, fwd := .done, noOut := true }
+            have h1 : GInv { s with inq := rest, calls := c, streams := s.streams ++ [n] } :=
+              happ _ n rfl rfl rfl rfl rfl rfl rfl rfl rfl rfl rfl rfl rfl
+            simp only [nilOut, adapterFail, Variant.fixed, if_true]
+            exact ginv_same h1 rfl rfl rfl rfl rfl rfl (fun hc => by simp; exact Or.inl hc) h1.closingW h1.inclosedW
+              (fun _ he => by simp at he) (fun he => by simp at he)
           cases m with
           | garbage => simp only [Option.some.injEq] at h; subst h; exact hfail s.calls
           | failing => simp only [Option.some.injEq] at h; subst h; exact hfail (s.calls + 1)
-          | fresh => simp only [Option.some.injEq] at h; subst h; exact hnewS (s.calls + 1)
+          | fresh => simp only [Option.some.injEq] at h; subst h; exact hnewS (s.calls + 1) {} rfl rfl
+          | nostop => simp only [Option.some.injEq] at h; subst h; exact hnewS (s.calls + 1) _ rfl rfl
+          | noout => simp only [Option.some.injEq] at h; subst h; exact hnil (s.calls + 1)
           | reuse j =>
             simp only at h
             split at h
-            · simp only [Option.some.injEq] at h; subst h; exact hnewS (s.calls + 1)
+            · simp only [Option.some.injEq] at h; subst h; exact hnewS (s.calls + 1) {} rfl rfl
             · simp only [Variant.fixed, if_true, Option.some.injEq] at h; subst h
               exact ginv_same hG rfl rfl rfl rfl rfl rfl id hG.closingW hG.inclosedW hG.stopW id
   | emit k f x =>
@@ -1620,7 +1662,7 @@ theorem ginv_step (caps : Caps) (s s' : St) (a : Act) (hI : Inv s) (hJ : Inv2 s)
     · simp at h
     · rename_i st hk
       split at h
-      · simp only [Option.some.injEq] at h; subst h
+      · simp only [stopChan_fixed, Option.some.injEq] at h; subst h
         exact ginv_set hG hk _ rfl rfl rfl rfl rfl rfl id rfl rfl rfl rfl (fun _ ho => ho) (fun _ _ he => he)
       · simp at h
   | wOut =>
@@ -1894,8 +1936,15 @@ theorem inv3_step (caps : Caps) (s s' : St) (a : Act) (hI : Inv s) (hG : GInv s)
             intro x hx hr hf
             simp only at hf
             simp [hf]
-          have hnew : ∀ c, Inv3 (newStream .fixed { s with inq := rest, calls := c }) := by
+          have hnil : ∀ c, Inv3 (nilOut .fixed { s with inq := rest, calls := c }) := by
             intro c
+            simp only [nilOut, adapterFail, Variant.fixed, if_true]
+            refine ⟨hK.wdW, hK.cnN, ?_⟩
+            intro x hx hr hf
+            simp only at hf
+            simp [hf]
+          have hnew : ∀ c (t : Stream), Inv3 (newStream .fixed { s with inq := rest, calls := c } t) := by
+            intro c t
             simp only [newStream, Variant.fixed, if_true]
             split
             · rename_i hoc
@@ -1908,11 +1957,13 @@ theorem inv3_step (caps : Caps) (s s' : St) (a : Act) (hI : Inv s) (hG : GInv s)
           cases m with
           | garbage => simp only [Option.some.injEq] at h; subst h; exact hfail s.calls
           | failing => simp only [Option.some.injEq] at h; subst h; exact hfail (s.calls + 1)
-          | fresh => simp only [Option.some.injEq] at h; subst h; exact hnew (s.calls + 1)
+          | fresh => simp only [Option.some.injEq] at h; subst h; exact hnew (s.calls + 1) {}
+          | nostop => simp only [Option.some.injEq] at h; subst h; exact hnew (s.calls + 1) _
+          | noout => simp only [Option.some.injEq] at h; subst h; exact hnil (s.calls + 1)
           | reuse j =>
             simp only at h
             split at h
-            · simp only [Option.some.injEq] at h; subst h; exact hnew (s.calls + 1)
+            · simp only [Option.some.injEq] at h; subst h; exact hnew (s.calls + 1) {}
             · simp only [Variant.fixed, if_true, Option.some.injEq] at h; subst h
               exact same _ rfl rfl rfl rfl rfl rfl rfl
   | emit k f x =>
@@ -1967,7 +2018,7 @@ theorem inv3_step (caps : Caps) (s s' : St) (a : Act) (hI : Inv s) (hG : GInv s)
     · simp at h
     · rename_i st hk
       split at h
-      · simp only [Option.some.injEq] at h; subst h; exact sameS k st _ hk rfl
+      · simp only [stopChan_fixed, Option.some.injEq] at h; subst h; exact sameS k st _ hk rfl
       · simp at h
   | wOut =>
     simp only at h
@@ -2034,6 +2085,8 @@ theorem adapter_enabled (caps : Caps) (s : St) (hI : Inv s) (hnd : s.adone = fal
       | garbage => rfl
       | failing => rfl
       | fresh => rfl
+      | nostop => rfl
+      | noout => rfl
       | reuse j => simp only []; split <;> simp [Variant.fixed]
 
 /-- **nothing of onet's is ever stuck**: in every reachable state in which none of onet's goroutines
@@ -2254,6 +2307,303 @@ example :
     | zero => decide
     | succ k => exact ⟨(step_stream_none _ _ s (k + 1) (by omega)).2.1, (step_stream_none _ _ s (k + 1) (by omega)).2.2⟩
 
+/-! ### streaming handlers that hand back nil channels
+
+A streaming handler returns `(chan T, chan bool, error)`.  With a nil error nothing forces either
+channel to be non-nil.  Until round 5 a **nil stop channel** ended the whole server at the end of
+the stream (`close of nil channel` in the stopper), and a **nil output channel** got a forwarder
+that waits for ever in `reflect.Select` — it survives the client, and because it counts as a running
+forwarder `outChan` is never closed: a client that stays is never sent a close.  `c15_no_panic`,
+`c15_nothing_stuck`, … above quantify over the messages `nostop` and `noout` too (they hold for the
+repaired code); what follows is the part of the statement that is specific to them. -/
+
+/-- no forwarder is ever started on a nil channel; such a request is refused (its service is told
+to stop at once) -/
+def NilL (l : List Stream) : Prop := ∀ st ∈ l, st.noOut = true → st.fwd = .done ∧ st.refused = true
+
+theorem nilL_set {l : List Stream} (hN : NilL l) (k : Nat) (st' : Stream)
+    (h' : st'.noOut = true → st'.fwd = .done ∧ st'.refused = true) : NilL (l.set k st') := by
+  intro u hu
+  rcases mem_set_cases hu with hu | rfl
+  · exact hN u hu
+  · exact h'
+
+theorem nilL_append {l : List Stream} (hN : NilL l) (t : Stream)
+    (h' : t.noOut = true → t.fwd = .done ∧ t.refused = true) : NilL (l ++ [t]) := by
+  intro u hu
+  simp only [List.mem_append, List.mem_singleton] at hu
+  rcases hu with hu | rfl
+  · exact hN u hu
+  · exact h'
+
+/-- a stream whose forwarder is running is not a nil channel -/
+theorem nilL_running {l : List Stream} (hN : NilL l) {k : Nat} {st : Stream} (hk : l[k]? = some st)
+    (hf : st.fwd ≠ .done) : st.noOut = false := by
+  cases hno : st.noOut with
+  | false => rfl
+  | true => exact absurd (hN st (List.mem_of_getElem? hk) hno).1 hf
+
+theorem nil_step (caps : Caps) (s s' : St) (a : Act) (hI : Inv s) (hN : NilL s.streams)
+    (h : step .fixed caps s a = some s') : NilL s'.streams := by
+  have hps : s.panic.isSome = false := by simp [hI.nopanic]
+  unfold step at h
+  simp only [hps, Bool.false_eq_true, if_false] at h
+  -- replacing the forwarder state of a running forwarder
+  have hset : ∀ (k f : Nat) (st base : Stream) (pc pc' : FPc), s.streams[k]? = some st → getFwd st f = some pc →
+      pc ≠ .done → base.noOut = st.noOut → base.extra = st.extra → NilL (s.streams.set k (setFwd base f pc')) := by
+    intro k f st base pc pc' hk hg hpc hb hbx
+    have hx := hI.noextra st (List.mem_of_getElem? hk)
+    obtain ⟨rfl, hfw⟩ := getFwd_zero st hx f _ hg
+    have hno := nilL_running hN hk (by rw [hfw]; exact hpc)
+    refine nilL_set hN k _ (fun hn => ?_)
+    simp [setFwd, hb, hno] at hn
+  cases a with
+  | cSend m =>
+    simp only at h
+    split at h
+    · simp at h
+    · simp only [Option.some.injEq] at h; subst h; exact hN
+  | cLeave =>
+    simp only at h
+    split at h
+    · simp at h
+    · simp only [Option.some.injEq] at h; subst h; exact hN
+  | rStep =>
+    simp only at h
+    split at h
+    · split at h
+      · simp only [readerExit, Variant.fixed, if_true, Option.some.injEq] at h; subst h; exact hN
+      · split at h
+        · simp only [Option.some.injEq] at h; subst h; exact hN
+        · split at h
+          · simp only [readerExit, Variant.fixed, if_true, Option.some.injEq] at h; subst h; exact hN
+          · simp at h
+    · split at h
+      · simp only [Option.some.injEq] at h; subst h; exact hN
+      · split at h
+        · simp only [Option.some.injEq] at h; subst h; exact hN
+        · simp at h
+    · simp at h
+  | rLeave =>
+    simp only at h
+    split at h
+    · split at h
+      · simp only [readerExit, Variant.fixed, if_true, Option.some.injEq] at h; subst h; exact hN
+      · simp at h
+    · simp at h
+  | aStep =>
+    simp only at h
+    split at h
+    · simp at h
+    · split at h
+      · split at h
+        · simp only [Option.some.injEq] at h; subst h; exact hN
+        · simp at h
+      · rename_i m rest hq
+        split at h
+        · simp only [Option.some.injEq] at h; subst h; exact hN
+        · have hfail : ∀ c, NilL (adapterFail .fixed { s with inq := rest, calls := c }).streams := by
+            intro c
+            simp only [adapterFail, Variant.fixed, if_true]
+            exact hN
+          have hnew : ∀ c (t : Stream), t.noOut = false →
+              NilL (newStream .fixed { s with inq := rest, calls := c } t).streams := by
+            intro c t ht
+            simp only [newStream, Variant.fixed, if_true]
+            split
+            · exact nilL_append hN _ (fun hn => by simp [ht] at hn)
+            · exact nilL_append hN _ (fun hn => by simp [ht] at hn)
+          cases m with
+          | garbage => simp only [Option.some.injEq] at h; subst h; exact hfail s.calls
+          | failing => simp only [Option.some.injEq] at h; subst h; exact hfail (s.calls + 1)
+          | fresh => simp only [Option.some.injEq] at h; subst h; exact hnew (s.calls + 1) {} rfl
+          | nostop => simp only [Option.some.injEq] at h; subst h; exact hnew (s.calls + 1) _ rfl
+          | noout =>
+            simp only [nilOut, adapterFail, Variant.fixed, if_true, Option.some.injEq] at h; subst h
+            exact nilL_append hN _ (fun _ => ⟨rfl, rfl⟩)
+          | reuse j =>
+            simp only at h
+            split at h
+            · simp only [Option.some.injEq] at h; subst h; exact hnew (s.calls + 1) {} rfl
+            · simp only [Variant.fixed, if_true, Option.some.injEq] at h; subst h; exact hN
+  | emit k f x =>
+    simp only at h
+    split at h
+    · simp at h
+    · rename_i st hk
+      split at h
+      · simp at h
+      · split at h
+        · rename_i hg
+          simp only [Option.some.injEq] at h; subst h
+          exact hset k f st _ _ _ hk hg (by simp) rfl rfl
+        · simp at h
+  | svcClose k =>
+    simp only at h
+    split at h
+    · simp at h
+    · rename_i st hk
+      split at h
+      · simp at h
+      · rename_i hc
+        simp only [Option.some.injEq] at h; subst h
+        refine nilL_set hN k _ (fun hn => ?_)
+        simp only [Bool.or_eq_true, not_or] at hc
+        exact absurd hn hc.2
+  | fStep k f =>
+    simp only at h
+    split at h
+    · simp at h
+    · rename_i st hk
+      split at h
+      · rename_i hg
+        split at h
+        · simp only [fwdExit, Variant.fixed, if_true, Option.some.injEq] at h; subst h
+          exact hset k f st _ _ _ hk hg (by simp) rfl rfl
+        · simp at h
+      · rename_i y hg
+        split at h
+        · simp only [Option.some.injEq] at h; subst h; exact hN
+        · split at h
+          · simp only [Option.some.injEq] at h; subst h
+            exact hset k f st _ _ _ hk hg (by simp) rfl rfl
+          · simp at h
+      · simp at h
+  | fDrop k f =>
+    simp only at h
+    split at h
+    · simp at h
+    · rename_i st hk
+      split at h
+      · rename_i y hg
+        split at h
+        · simp only [fwdExit, Variant.fixed, if_true, Option.some.injEq] at h; subst h
+          exact hset k f st _ _ _ hk hg (by simp) rfl rfl
+        · simp at h
+      · simp at h
+  | stop k =>
+    simp only at h
+    split at h
+    · simp at h
+    · rename_i st hk
+      split at h
+      · simp only [stopChan_fixed, Option.some.injEq] at h; subst h
+        exact nilL_set hN k _ (fun hn => hN st (List.mem_of_getElem? hk) hn)
+      · simp at h
+  | wOut =>
+    simp only at h
+    split at h
+    · simp at h
+    · split at h
+      · simp only [Option.some.injEq] at h; subst h; exact hN
+      · split at h
+        · simp only [writerLeave, Variant.fixed, if_true, Bool.false_eq_true, if_false, Option.some.injEq] at h
+          subst h; exact hN
+        · simp at h
+  | wClosing =>
+    simp only at h
+    split at h
+    · simp at h
+    · split at h
+      · simp only [writerLeave, Variant.fixed, if_true, Option.some.injEq] at h
+        subst h; exact hN
+      · simp at h
+  | wOutFail =>
+    simp only at h
+    split at h
+    · simp at h
+    · split at h
+      · split at h
+        · simp only [writerLeave, Variant.fixed, if_true, Bool.false_eq_true, if_false, Option.some.injEq] at h
+          subst h; exact hN
+        · simp at h
+      · simp at h
+
+theorem nil_run (caps : Caps) (s : St) (hI : Inv s) (hN : NilL s.streams) (sched : List Act) :
+    NilL (run .fixed caps s sched).streams := by
+  induction sched generalizing s with
+  | nil => exact hN
+  | cons a as ih =>
+    simp only [run]
+    split
+    · rename_i s' hs; exact ih s' (inv_step caps s s' a hI hs) (nil_step caps s s' a hI hN hs)
+    · exact ih s hI hN
+
+/-- **no routine of onet's ever waits on a nil channel**: whatever the handler hands back for
+whichever request, in every reachable state a nil output channel has no forwarder and its request
+has been refused (so by `c15_nothing_stuck` its stopper has run as soon as onet is quiescent); every
+forwarder that is still waiting waits on a real channel, which its service can close. -/
+theorem c15_no_forwarder_on_nil_channel (caps : Caps) (m₀ : CMsg) (sched : List Act) :
+    let s := run .fixed caps (init m₀) sched
+    (∀ st ∈ s.streams, st.noOut = true → st.fwd = .done ∧ st.refused = true) ∧
+    (∀ st ∈ s.streams, st.fwd ≠ .done → st.noOut = false) := by
+  intro s
+  have hN : NilL s.streams := nil_run caps _ (inv_init m₀) (by simp [NilL, init]) sched
+  refine ⟨hN, fun st hst hf => ?_⟩
+  obtain ⟨k, hk⟩ := List.getElem?_of_mem hst
+  exact nilL_running hN hk hf
+
+/-- the actions of onet's goroutines on a connection with one channel -/
+def internal1 : List Act := [.rStep, .rLeave, .aStep, .wOut, .wClosing, .wOutFail, .stop 0, .fStep 0 0, .fDrop 0 0]
+
+/-- the code as it is but for the handling of nil channels -/
+def Variant.nilUnsafe : Variant := ⟨true, true, true, false⟩
+
+/-- **a nil stop channel killed the server at the end of the stream** (seeding round 5; reproduced
+by `notes/probes/onet_c15_nil_channels_probe_test.go.txt`): the handler returns its channel and no
+stop channel; the values arrive, the service closes its channel, the client is sent the normal
+close, the connection is torn down — and the stopper, woken by `stopAll`, closes the nil channel.
+The code as it is survives the same schedule with everything torn down. -/
+theorem c15_old_nil_stop_channel_crashes :
+    let sched : List Act := [.aStep, .emit 0 0 7, .fStep 0 0, .wOut, .svcClose 0, .fStep 0 0, .wOut, .rStep, .aStep,
+      .stop 0]
+    let o := run .nilUnsafe caps10 (init .nostop) sched
+    let s := run .fixed caps10 (init .nostop) sched
+    o.s2c = [.data 0 7, .closeNormal] ∧ o.panic = some .closeOfNilStop ∧
+    s.s2c = [.data 0 7, .closeNormal] ∧ s.panic = none ∧ s.wdone = true ∧ s.adone = true ∧ s.rpc = .done ∧
+      (∀ a ∈ internal1, step .fixed caps10 s a = none) := by decide
+
+/-- … the same when the client leaves first, or when a later request of a healthy stream is the one
+without a stop channel -/
+theorem c15_old_nil_stop_channel_crashes_client_leaves :
+    (run .nilUnsafe caps10 (init .nostop) [.aStep, .cLeave, .rStep, .aStep, .stop 0]).panic = some .closeOfNilStop ∧
+    (run .nilUnsafe caps10 (init .fresh) [.aStep, .cSend .nostop, .rStep, .rStep, .aStep, .cLeave, .rStep, .aStep,
+      .stop 0, .stop 1]).panic = some .closeOfNilStop ∧
+    (run .fixed caps10 (init .fresh) [.aStep, .cSend .nostop, .rStep, .rStep, .aStep, .cLeave, .rStep, .aStep,
+      .stop 0, .stop 1]).panic = none := by decide
+
+/-- **a nil output channel left a forwarder behind for ever** (same probe): after the client has
+left and everything else is torn down the forwarder still waits, and nothing the service can do
+(`emit`, `svcClose` are impossible on a nil channel) will ever end it; while the client stays,
+`outChan` is never closed (the forwarder counts as running), so the client is never sent a close.
+The code as it is ends the stream at once: the client is sent the close, the service is told to
+stop, no routine is left. -/
+theorem c15_old_nil_out_channel_forwarder_stuck :
+    let o := run .nilUnsafe caps10 (init .noout) [.aStep, .cLeave, .rStep, .aStep, .wClosing, .stop 0]
+    let w := run .nilUnsafe caps10 (init .noout) [.aStep]
+    let s := run .fixed caps10 (init .noout) [.aStep, .stop 0, .wOut, .rStep, .aStep]
+    (o.cGone = true ∧ o.rpc = .done ∧ o.adone = true ∧ o.wdone = true ∧
+      (o.streams.map (fun st => (st.stopClosed, st.fwd, st.noOut))) = [(true, .recv, true)] ∧ o.fcount = 1 ∧
+      (∀ a ∈ internal1, step .nilUnsafe caps10 o a = none) ∧
+      step .nilUnsafe caps10 o (.svcClose 0) = none ∧ (∀ v, step .nilUnsafe caps10 o (.emit 0 0 v) = none)) ∧
+    (w.s2c = [] ∧ w.outClosed = false ∧ (∀ a ∈ internal1, step .nilUnsafe caps10 w a = none) ∧
+      step .nilUnsafe caps10 w (.svcClose 0) = none) ∧
+    (s.s2c = [.closeNormal] ∧ s.panic = none ∧ s.fcount = 0 ∧ s.wdone = true ∧ s.adone = true ∧ s.rpc = .done ∧
+      (s.streams.map (fun st => (st.stopClosed, st.fwd, st.noOut))) = [(true, .done, true)] ∧
+      (∀ a ∈ internal1, step .fixed caps10 s a = none)) := by
+  refine ⟨⟨by decide, by decide, by decide, by decide, by decide, by decide, by decide, by decide, ?_⟩,
+    by decide, by decide⟩
+  intro v
+  rfl
+
+/-- the nil-channel repair is needed on its own (the other three in place): the full statement
+fails without it -/
+theorem c15_full_fails_nil_unsafe : ¬ C15_full .nilUnsafe := by
+  intro h
+  have := (h caps10 .nostop [.aStep, .cLeave, .rStep, .aStep, .stop 0] (by decide)).1
+  rw [c15_old_nil_stop_channel_crashes_client_leaves.1] at this
+  cases this
+
 /-! ### several connections on one server: other clients are unaffected -/
 
 theorem run_cons_none {v : Variant} {caps : Caps} {s : St} {a : Act} (as : List Act) (h : step v caps s a = none) :
@@ -2363,9 +2713,6 @@ theorem c15_old_crash_takes_other_clients_down :
 
 /-! ### a write loop that waits for the client's answer to its close frame -/
 
-/-- the actions of onet's goroutines on a connection with one channel -/
-def internal1 : List Act := [.rStep, .rLeave, .aStep, .wOut, .wClosing, .wOutFail, .stop 0, .fStep 0 0, .fDrop 0 0]
-
 /-- **waiting for the reader after the normal close blocks on a silent client**: the service ends
 the stream, the normal close is written; the client is still connected but sends nothing more (it
 does not answer the close frame).  With the write loop waiting for the reader routine
@@ -2393,27 +2740,67 @@ obligations even when no sampled input or schedule shows a difference; the check
 a failing input. -/
 theorem c15_shape_ServiceProcessor_ProcessClientStreamRequest :
     Shapes.processor_ServiceProcessor_ProcessClientStreamRequest =
-   ["verifC15Point", "close:stopAll", "stopAllOnce.Do", "outLock.Lock", "close:outChan",
-     "outLock.Unlock", "go{", "verifC15Point", "server.Suite", "network.DefaultConstructors",
-     "protobuf.DecodeWithConstructors", "endStream", "callInterfaceFunc",
-     "close:stopServiceChan", "endStream", "outLock.Lock", "outLock.Unlock", "go{",
-     "recv:stopAll", "closing.Lock", "defer:closing.Unlock", "recv:stopServiceChan",
-     "close:stopServiceChan", "}", "go{", "defer{", "verifC15Point", "outLock.Lock",
-     "close:outChan", "outLock.Unlock", "}", "v.Interface", "protobuf.Encode", "verifC15Point",
-     "send:outChan", "recv:stopAll", "}", "close:stopAll", "stopAllOnce.Do", "}"] := rfl
+   ["assign:outChan:=make(conv,100)", "assign:mh,ok:=p.handlers[path]", "if:!ok",
+     "assign:err:=xerrors.New(((\"\"+\"\")+path))", "return:nil,err",
+     "assign:stopAll:=make(conv)", "assign:closing:=sync.Mutex{}", "assign:forwarders:=0",
+     "assign:outClosed:=false", "verifC15Point", "close:stopAll", "stopAllOnce.Do",
+     "outLock.Lock", "if:((forwarders==0)&&!outClosed)", "assign:outClosed=true",
+     "close:outChan", "outLock.Unlock", "assign:endStream:=func", "go{", "assign:ended:=false",
+     "assign:forwarded:=make(conv)", "range:buf,:=clientInputs{", "verifC15Point", "if:ended",
+     "continue", "assign:msg:=reflect.New().Interface()", "server.Suite",
+     "network.DefaultConstructors", "protobuf.DecodeWithConstructors",
+     "assign:err:=protobuf.DecodeWithConstructors(buf,msg,network.DefaultConstructors(p.Context.server.Suite()))",
+     "if:(err!=nil)", "assign:ended=true", "endStream", "continue", "callInterfaceFunc",
+     "assign:reply,stopServiceChan,err:=callInterfaceFunc(mh.handler,msg,mh.streaming)",
+     "if:(err!=nil)", "if:(stopServiceChan!=nil)", "close:stopServiceChan", "assign:ended=true",
+     "endStream", "continue", "assign:inChan:=reflect.ValueOf(reply)", "inChan.IsNil",
+     "assign:noChan:=inChan.IsNil()", "if:noChan", "assign:ended=true", "endStream",
+     "assign:known:=forwarded[reply]", "assign:forwarded[reply]=true", "outLock.Lock",
+     "assign:refused:=(outClosed||noChan)", "if:(!refused&&!known)", "assign:forwarders++",
+     "outLock.Unlock", "go{", "if:!refused", "recv:stopAll", "if:(stopServiceChan==nil)",
+     "return:", "closing.Lock", "defer:closing.Unlock", "recv:stopServiceChan", "return:",
+     "close:stopServiceChan", "}", "if:(refused||known)", "continue", "go{",
+     "assign:cases:=conv{{Dir:reflect.SelectRecv,Chan:inChan}}", "defer{", "verifC15Point",
+     "outLock.Lock", "assign:forwarders--", "if:((forwarders==0)&&!outClosed)",
+     "assign:outClosed=true", "close:outChan", "outLock.Unlock", "}", "for:{",
+     "assign:chosen,v,ok:=reflect.Select(cases)", "if:!ok", "return:", "if:(chosen==0)",
+     "v.Interface", "protobuf.Encode", "assign:buf,err:=protobuf.Encode(v.Interface())",
+     "if:(err!=nil)", "return:", "verifC15Point", "send:outChan", "recv:stopAll", "return:",
+     "else", "}", "}", "}", "close:stopAll", "stopAllOnce.Do", "}", "return:outChan,nil"] := rfl
 
 theorem c15_shape_wsHandler_ServeHTTP :
     Shapes.websocket_wsHandler_ServeHTTP =
-   ["defer{", "}", "u.Upgrade", "defer:ws.Close", "ws.ReadMessage",
-     "bidirectionalStreamer.IsStreaming", "s.ProcessClientRequest", "time.Now", "Now().Add",
-     "ws.SetWriteDeadline", "ws.WriteMessage", "send:clientInputs",
-     "bidirectionalStreamer.ProcessClientStreamRequest", "go{", "defer:close:clientInputs",
-     "defer:verifC15Point", "ws.ReadMessage", "close:closing", "verifC15Point",
-     "send:clientInputs", "recv:leaving", "}", "recv:closing", "recv:outChan",
+   ["assign:rx:=0", "assign:tx:=0", "assign:n:=0", "defer{", "}", "return:true",
+     "assign:u:=websocket.Upgrader{EnableCompression:false,CheckOrigin:func}", "u.Upgrade",
+     "assign:ws,err:=u.Upgrade(w,r,http.Header{})", "if:(err!=nil)", "return:", "defer:ws.Close",
+     "for:(err==nil){", "ws.ReadMessage", "assign:mt,buf,rerr:=ws.ReadMessage()",
+     "if:(rerr!=nil)", "assign:err=rerr", "break", "assign:rx+=len(buf)", "assign:n++",
+     "assign:s:=t.service",
+     "assign:path:=strings.TrimPrefix(r.URL.Path,((\"\"+t.serviceName)+\"\"))",
+     "assign:isStreaming:=false", "assign:bidirectionalStreamer,ok:=s.(BidirectionalStreamer)",
+     "if:ok", "bidirectionalStreamer.IsStreaming",
+     "assign:isStreaming,err=bidirectionalStreamer.IsStreaming(path)", "if:(err!=nil)",
+     "continue", "if:!isStreaming", "s.ProcessClientRequest",
+     "assign:reply,_,err=s.ProcessClientRequest(r,path,buf)", "if:(err!=nil)", "continue",
+     "assign:tx+=len(reply)", "time.Now", "Now().Add", "ws.SetWriteDeadline",
+     "assign:err=ws.SetWriteDeadline(time.Now().Add((5*time.Minute)))", "if:(err!=nil)", "break",
+     "ws.WriteMessage", "assign:err=ws.WriteMessage(mt,reply)", "if:(err!=nil)", "break",
+     "continue", "assign:clientInputs:=make(conv,10)", "send:clientInputs",
+     "bidirectionalStreamer.ProcessClientStreamRequest",
+     "assign:outChan,err=bidirectionalStreamer.ProcessClientStreamRequest(r,path,clientInputs)",
+     "if:(err!=nil)", "continue", "assign:closing:=make(conv)", "assign:leaving:=make(conv)",
+     "go{", "defer:close:clientInputs", "defer:verifC15Point", "for:{", "ws.ReadMessage",
+     "assign:_,buf,err:=ws.ReadMessage()", "if:(err!=nil)", "close:closing", "return:",
+     "verifC15Point", "send:clientInputs", "recv:leaving", "return:", "}", "}", "for:{",
+     "recv:closing", "break", "recv:outChan", "assign:reply,ok:=<-outChan", "if:!ok",
      "websocket.FormatCloseMessage", "time.Now", "Now().Add", "ws.WriteControl", "verifC15Point",
-     "close:leaving", "time.Now", "Now().Add", "ws.SetWriteDeadline", "verifC15Point",
-     "close:leaving", "ws.WriteMessage", "verifC15Point", "close:leaving", "err.Error",
-     "websocket.FormatCloseMessage", "time.Now", "Now().Add", "ws.WriteControl"] := rfl
+     "close:leaving", "return:", "assign:tx+=len(reply)", "time.Now", "Now().Add",
+     "ws.SetWriteDeadline", "assign:err=ws.SetWriteDeadline(time.Now().Add((5*time.Minute)))",
+     "if:(err!=nil)", "verifC15Point", "close:leaving", "break", "ws.WriteMessage",
+     "assign:err=ws.WriteMessage(mt,reply)", "if:(err!=nil)", "verifC15Point", "close:leaving",
+     "break", "}", "}", "assign:errMessage:=\"\"", "if:(err!=nil)", "err.Error",
+     "assign:errMessage+=err.Error()", "websocket.FormatCloseMessage", "time.Now", "Now().Add",
+     "ws.WriteControl", "return:"] := rfl
 
 
 end C15
